@@ -19,7 +19,7 @@ const (
 
 func init() {
 	register(&Property{ID: "C15", Level: "other", Run: runC15,
-		Explanation: "R15.9 also: every SIGHUP reloads the policy. Decided for all CFG paths: (R15.1) every method of the gRPC interface client.APIServer is implemented on *apiServer and contains (or delegates to a request loop that contains) a call to ensureAuthorizationPermission; R15.2 also requires unary handlers to report success only over the ok-edge; R15.8 the tls.client.auth(z).* keys reach their Config fields; R11.1 (shared) SetCursor remembers nothing before its inner publish — the second permission — succeeded." +
+		Explanation: "R15.9 also (round 10): the enforcer is built on the configured policy FILE, so a reload re-reads it. R15.9 also: every SIGHUP reloads the policy. Decided for all CFG paths: (R15.1) every method of the gRPC interface client.APIServer is implemented on *apiServer and contains (or delegates to a request loop that contains) a call to ensureAuthorizationPermission; R15.2 also requires unary handlers to report success only over the ok-edge; R15.8 the tls.client.auth(z).* keys reach their Config fields; R11.1 (shared) SetCursor remembers nothing before its inner publish — the second permission — succeeded." +
 			"(R15.2/R15.3) in every such handler no call that can have an effect (effect analysis over the module SSA: stores/map updates/sends/go on non-local memory, NATS, Raft, gRPC Send, ...) is reachable from the handler entry — or from the request boundary Recv in a streaming loop — without crossing the edge on which the authorisation result is nil, so a denial is terminal and nothing precedes the check; " +
 			"(R15.4) the action asked about is the handler's own method name and the resource is a field of the request; (R15.5) the enforcer is used only under its lock and ensureAuthorizationPermission returns nil only when authorisation is off or Enforce said yes without error; (R15.6) config keys tested with IsSet are the keys read. " +
 			"NOT decided: casbin's matcher semantics, TLS identity extraction, what the effects do once authorised.",
